@@ -155,3 +155,162 @@ def u_copy_frame(ctx):
                 ctx.record("frame:%s:%s:no-state-between-calls" % (rel, q), not bad, kind="frame",
                            detail="mutable defaults: %s" % bad)
     ctx.record("frame:copy-methods-found", k >= 40, kind="cover", detail="%d copy methods" % k)
+
+
+# ---------------------------------------------------------------------------------------------------
+# to_hdf5 / from_hdf5 field wiring (A1): from_hdf5(to_hdf5(x)).a is read back from exactly what x.a stored, for every field
+import ast
+from pyvc import loopcut
+
+HDF5_CLASSES = [
+    ("pybrops/core/mat/DenseMatrix.py", "DenseMatrix"),
+    ("pybrops/core/mat/DenseTaxaMatrix.py", "DenseTaxaMatrix"),
+    ("pybrops/core/mat/DenseTraitMatrix.py", "DenseTraitMatrix"),
+    ("pybrops/core/mat/DenseVariantMatrix.py", "DenseVariantMatrix"),
+    ("pybrops/core/mat/DenseTaxaTraitMatrix.py", "DenseTaxaTraitMatrix"),
+    ("pybrops/core/mat/DenseTaxaVariantMatrix.py", "DenseTaxaVariantMatrix"),
+    ("pybrops/core/mat/DenseSquareTaxaSquareTraitMatrix.py", "DenseSquareTaxaSquareTraitMatrix"),
+    ("pybrops/popgen/gmat/DenseGenotypeMatrix.py", "DenseGenotypeMatrix"),
+    ("pybrops/popgen/bvmat/DenseBreedingValueMatrix.py", "DenseBreedingValueMatrix"),
+    ("pybrops/model/gmod/DenseLinearGenomicModel.py", "DenseLinearGenomicModel"),
+    ("pybrops/model/gmod/DenseAdditiveLinearGenomicModel.py", "DenseAdditiveLinearGenomicModel"),
+    ("pybrops/model/gmod/DenseAdditiveDominanceLinearGenomicModel.py", "DenseAdditiveDominanceLinearGenomicModel"),
+]
+STRING_FIELDS = {"taxa", "trait", "vrnt_name", "vrnt_hapalt", "vrnt_hapref", "model_name"}       # text: must be read back through a utf-8 decoding reader
+DICT_FIELDS = {"hyperparams"}
+
+
+class _AFile:
+    """abstract file for the wiring proof: path -> stored token (write_dict's own contract is the unit above)"""
+
+    def __init__(self):
+        self.map, self.closed = {}, False
+
+    def __contains__(self, k):
+        return k.rstrip("/") in self.map or any(q.startswith(k.rstrip("/") + "/") for q in self.map)
+
+    def close(self):
+        self.closed = True
+
+
+class _H5:
+    File = _AFile
+
+
+class _Src:
+    """source object: every attribute read yields a distinct token (or None for an absent optional field)"""
+
+    def __init__(self, absent=()):
+        object.__setattr__(self, "_reads", {})
+        object.__setattr__(self, "_absent", set(absent))
+
+    def __getattr__(self, a):
+        if a.startswith("__"):
+            raise AttributeError(a)
+        if a not in self._reads:
+            self._reads[a] = None if a in self._absent else loopcut.Token("self." + a)
+        return self._reads[a]
+
+
+def _wiring(ctx, rel, cls):
+    tree = ast.parse(loopcut.read_source(rel))
+    tnode = loopcut.find_def(tree, cls + ".to_hdf5")
+    fnode = loopcut.find_def(tree, cls + ".from_hdf5")
+
+    def names(node, pred):
+        return sorted({n.id for n in ast.walk(node) if isinstance(n, ast.Name) and pred(n.id)})
+    written = []
+
+    def write_dict(h5file, groupname, data, overwrite=True):
+        # contract of h5py_File_write_dict (proved above): after the call path groupname+k holds data[k]; None leaves nothing
+        written.append((groupname, dict(data), overwrite))
+        for k, v in data.items():
+            h5file.map.pop(groupname + k, None)
+            if v is not None:
+                h5file.map[groupname + k] = v
+    ov_t = {"h5py": _H5, "h5py_File_write_dict": write_dict}
+    ov_t.update({n: (lambda *a, **k: None) for n in names(tnode, lambda s: s.startswith("check_"))})
+    to = loopcut.Extracted(rel + ":" + cls + ".to_hdf5", overrides=ov_t)
+
+    def reader(kind):
+        def rd(h5file, path):
+            if path not in h5file.map:
+                raise KeyError("read of a path that was never written: %s" % path)
+            return (kind, h5file.map[path])
+        return rd
+    ov_f = {"h5py": _H5}
+    ov_f.update({n: reader(n[len("h5py_File_read_"):]) for n in names(fnode, lambda s: s.startswith("h5py_File_read_"))})
+
+    def has_group(h5file, path):
+        if path not in h5file:
+            raise LookupError("group %s missing" % path)
+    ov_f.update({n: (has_group if n == "check_h5py_File_has_group" else (lambda *a, **k: None))
+                 for n in names(fnode, lambda s: s.startswith("check_"))})
+    fr = loopcut.Extracted(rel + ":" + cls + ".from_hdf5", overrides=ov_f)
+    built = []
+
+    class Rec:
+        def __init__(self, **kw):
+            object.__setattr__(self, "fields", dict(kw))
+            built.append(self)
+
+        def __setattr__(self, k, v):
+            self.fields[k] = v
+
+    # which optional fields exist: those from_hdf5 guards with `<key> in h5file`
+    for gname, tag in (("grp", "in-group"), (None, "at-root")):
+        # 1: every field present
+        src = _Src()
+        f1 = _AFile()
+        del written[:], built[:]
+        to(src, f1, gname)
+        reads = dict(src._reads)
+        ctx.record("%s:%s:to_hdf5-writes-once-through-write_dict" % (cls, tag), len(written) == 1, detail=str(written)[:300])
+        keys = written[0][1] if written else {}
+        stored = [v for v in keys.values()]
+        ctx.record("%s:%s:to_hdf5-stores-every-field-it-reads-under-a-key-of-its-own" % (cls, tag),
+                   bool(keys) and all(any(v is t for v in stored) for t in reads.values())
+                   and len({id(v) for v in stored}) == len(stored) and all(any(v is t for t in reads.values()) for v in stored),
+                   detail="keys %s reads %s" % (sorted(keys), sorted(reads)))
+        ctx.record("%s:%s:caller's-handle-left-open" % (cls, tag), not f1.closed)
+        out = fr(Rec, f1, gname)
+        ctx.record("%s:%s:from_hdf5-builds-one-object" % (cls, tag), len(built) == 1 and out is built[0])
+        got = built[0].fields if built else {}
+        for a in sorted(reads):
+            v = got.get(a)
+            ok = isinstance(v, tuple) and len(v) == 2 and v[1] is reads[a]
+            ctx.record("%s:%s:field %s is read back from what field %s stored" % (cls, tag, a, a), ok, detail="got %r" % (v,))
+            if ok:
+                kind = v[0]
+                want = ("utf8" in kind) if a in STRING_FIELDS else (("dict" in kind) if a in DICT_FIELDS else ("utf8" not in kind and "dict" not in kind))
+                ctx.record("%s:%s:field %s read with a reader of its kind (%s)" % (cls, tag, a, kind), want)
+        ctx.record("%s:%s:no-field-invented" % (cls, tag), set(got) <= set(reads), detail=str(sorted(set(got) - set(reads))))
+        # 2: every optional field absent (None): nothing stale is read, the fields come back as None
+        req = set()
+        for n in ast.walk(fnode):
+            if isinstance(n, ast.Assign) and isinstance(n.targets[0], ast.Name) and n.targets[0].id == "required_fields":
+                req = {e.value for e in n.value.elts}
+        src2 = _Src(absent=set(reads) - req)
+        f2 = _AFile()
+        f2.map.update({("%s/" % gname if gname else "") + k: loopcut.Token("stale." + k) for k in reads if k not in req})   # stale leftovers
+        del written[:], built[:]
+        to(src2, f2, gname)
+        out2 = fr(Rec, f2, gname)
+        got2 = built[0].fields if built else {}
+        ctx.record("%s:%s:absent-optional-fields-come-back-as-None-even-over-a-file-that-held-them" % (cls, tag),
+                   all(got2.get(a) is None for a in reads if a not in req) and all(isinstance(got2.get(a), tuple) for a in req),
+                   detail=str({a: got2.get(a) for a in reads})[:400])
+
+
+@unit(P, "A1[to_hdf5 / from_hdf5 field wiring: every field is read back from exactly what it stored, absent fields stay absent]", "A1",
+      targets=[r + ":" + c + "." + m for r, c in HDF5_CLASSES for m in ("to_hdf5", "from_hdf5")])
+def u_h5_wiring(ctx):
+    """proxy execution of the real to_hdf5 / from_hdf5 of 12 classes on token-valued fields over an abstract file; the
+    write routine is replaced by its contract (the write_dict unit), readers by tagging stubs, the constructor by a recorder"""
+    ctx.trust("h5py.File modelled as a finite path -> value map; array contents are opaque tokens (value round trip of h5py itself is the ring's)")
+    for rel, cls in HDF5_CLASSES:
+        try:
+            _wiring(ctx, rel, cls)
+        except Exception as ex_:
+            import traceback
+            ctx.record("%s:wiring-harness-ran" % cls, False, detail=traceback.format_exc()[-900:])
